@@ -256,6 +256,15 @@ Definition g_uniform_keys (c : circuit) : bool :=
                                               Bool.eqb (is_delayed e) (is_delayed e')) ||
                                        Bool.eqb (has_delay_key e) (has_delay_key e')) (cedges c)) (cedges c).
 
+(* D110 (open, loud): the buffer constant `source_idx{buffer_id}` (ring buffer) and the rate constants `k_d{chain}{buffer_id}` (gamma
+   kernels) do not carry the variable's name, so delayed edges leaving two DIFFERENT variables of ONE operator collide: PyRatesException
+   'Buffer variable name collision' at compile time, both vectorize settings.  In the model the two variables of such an operator are two
+   source nodes; `twins` lists the pairs.  Not modelled; the guard delimits the class (conservative for gamma kernels); repaired by
+   fixes/proposed_fix_C09_two_variables.diff.  fixed_twin_names: false = the code as it is. *)
+Definition fixed_twin_names : bool := false.
+Definition g_no_twin_collision (twins : list (nat * nat)) (c : circuit) : bool :=
+  fixed_twin_names || forallb (fun p => negb (gadd c (nkey c (fst p)) && gadd c (nkey c (snd p)))) twins.
+
 (* hypotheses of the partial theorem.  g_no_explicit_none is not among them: an edge with `delay: None` written out that
    ends up buffered already violates g_no_undelayed_sibling; it is kept as a separate guard to classify that class *)
 Definition guards (c : circuit) : bool :=
